@@ -651,6 +651,9 @@ func c08Pass(c *core.Ctx, incEdited bool) {
 			{"blank-lines=0", "entry-before=comment", "tx-comment-line=text"},
 			{"blank-lines=0", "entry-between=account-subline", "comment-line-after-posting=last, tag"},
 			{"line-end=CRLF", "blank-lines=0", "entry-between=comment"},
+			{"line-end=CRLF", "entry-between=tx-header-only"},
+			{"blank-lines=2", "entry-between=tx-header-only"},
+			{"line-end=CRLF", "entry-between=tx-header-only", "desc-shape=🍕 pizza"},
 		}
 		if !c.Thorough() {
 			combos = append(combos, [][]string{
